@@ -34,8 +34,9 @@ func IntProps(propContainer map[string]object.PanObject) map[string]object.PanOb
 					res = -1
 				}
 
-				// NOTE: Int's descendants also call this
-				return object.NewInheritedInt(args[0].Proto(), res)
+				// NOTE: result must be Int itself (not Int's descendant) because
+				// Comparable compares it with literals -1, 0 and 1
+				return object.NewPanInt(res)
 			},
 		),
 		// NOTE: this cannot be removed (Comparable uses Int#== internally)
